@@ -29,10 +29,20 @@ def mc_cfg(d=1, l=2, p=2, rich=False):
     return dict(constants=dict(MaxDefs=d, MaxLabels=l, MaxProcs=p, Rich=rich), invariants=INVS, deadlock=False)
 
 
+def metric_names(defs):
+    """A metric is identified by namespace + name + type, not by its name alone: when the definitions of the tracepoint
+    differ in type or namespace they all carry the SAME name."""
+    keys = [(d['type'], d['ns']) for d in defs]
+    if len(defs) >= 2 and len(set(keys)) == len(keys):
+        return ['latency'] * len(defs)
+    return ['metric_%d' % i for i in range(1, len(defs) + 1)]
+
+
 def metric_messages(defs):
     from deepproto.proto.tracepoint.v1.tracepoint_pb2 import Metric, MetricType, LabelExpression
     from deepproto.proto.common.v1.common_pb2 import AnyValue
     out = []
+    names = metric_names(defs)
     for i, d in enumerate(defs, 1):
         labels = []
         for j, kd in enumerate(d['labels'], 1):
@@ -49,7 +59,7 @@ def metric_messages(defs):
                 labels.append(LabelExpression(key=key, static=AnyValue(bool_value=False)))
             else:
                 labels.append(LabelExpression(key=key, expression=LABEL_EXPR[kd]))
-        kw = dict(name='metric_%d' % i, type=MetricType.Value(d['type']), labelExpressions=labels)
+        kw = dict(name=names[i - 1], type=MetricType.Value(d['type']), labelExpressions=labels)
         if d['expr'] != 'absent':
             kw['expression'] = EXPR[d['expr']]
         if d['ns'] == 'given':
@@ -62,13 +72,13 @@ def metric_messages(defs):
     return out
 
 
-def check_call(i, d, exp, call):
+def check_call(i, d, exp, call, want_name=None):
     """call = ('metric', op, name, labels, namespace, help, unit, value)."""
     _, op, name, labels, ns, hp, un, value = call
     bad = []
     if op != exp['op']:
         bad.append('operation %s, expected %s' % (op, exp['op']))
-    if name != 'metric_%d' % i:
+    if name != (want_name or 'metric_%d' % i):
         bad.append('name %r' % name)
     if ns != ('deep' if exp['ns'] == 'deep' else 'my_ns'):
         bad.append('namespace %r' % ns)
@@ -146,7 +156,7 @@ def run_case(host, defs, procs1, maxprocs, calls_spec):
                     continue
                 for call, e in zip(got, exp):
                     i = e['def']
-                    bad = check_call(i, defs[i - 1], e, call)
+                    bad = check_call(i, defs[i - 1], e, call, metric_names(defs)[i - 1])
                     if bad:
                         problems.append('hit %d processor %d definition %d %s: %s' % (h, pi + 1, i, defs[i - 1], bad))
         return problems[:6]
